@@ -1,4 +1,5 @@
 import MitmVerif.Model.C13
+import MitmVerif.Model.C13_Idna
 import Driver.Proto
 open MitmVerif Driver MitmVerif.C13
 
@@ -13,11 +14,44 @@ def hostBits (nm : Bytes) : String :=
   let b (a i : Bool) : String := if validHost ⟨fun _ => a, fun _ => i⟩ nm then "1" else "0"
   b false false ++ b false true ++ b true false ++ b true true
 
+/-- the model's own verdict when no library is needed (no `xn--` in the name), else `?` -/
+def hostVerdict (nm : Bytes) : String :=
+  if isInfix acePrefix nm then "?" else if validHostT noIdna nm then "1" else "0"
+
+/-- `"!"` = the codec raised -/
+def optHex (s : String) : Option (Option Bytes) :=
+  if s = "!" then some none else (hexOr s).map some
+
+/-- `12,34,56` / `-` (empty) -/
+def parseCps (s : String) : Option (List Nat) :=
+  if s = "-" then some []
+  else (s.splitOn ",").foldr (fun x acc => match x.toNat?, acc with | some n, some r => some (n :: r) | _, _ => none) (some [])
+
+/-- nameprep answers recorded from the interpreter: `in>out;in>!;…` or `-` -/
+def parseTable (s : String) : Option (List (List Nat × Option (List Nat))) :=
+  if s = "-" then some []
+  else (s.splitOn ";").foldr (fun e acc =>
+    match e.splitOn ">", acc with
+    | [a, b], some r =>
+      match parseCps a, (if b = "!" then some none else (parseCps b).map some) with
+      | some k, some v => some ((k, v) :: r)
+      | _, _ => none
+    | _, _ => none) (some [])
+
+def tableNameprep (tab : List (List Nat × Option (List Nat))) (dflt : Option (List Nat)) : Idna.Nameprep :=
+  ⟨fun cps => match tab.find? (fun e => e.1 == cps) with | some e => e.2 | none => dflt⟩
+
+/-- run `f` under two different defaults for questions the table does not answer: a difference = `lib-miss` -/
+def withTable (tab : List (List Nat × Option (List Nat))) (f : Idna.Nameprep → String) : String :=
+  let a := f (tableNameprep tab none)
+  let b := f (tableNameprep tab (some [0x61]))
+  if a == b then a else "lib-miss"
+
 def showHello (h : Hello) : String :=
   "hello c=" ++ showList (h.ciphers.map toString) ++
   " e=" ++ showList (h.extView.map (fun e => toString e.1 ++ ":" ++ showBytes e.2)) ++
   " a=" ++ showList (h.alpn.map showBytes) ++
-  " s=" ++ showList (h.sniCandidates.map (fun c => showBytes c ++ ":" ++ hostBits c))
+  " s=" ++ showList (h.sniCandidates.map (fun c => showBytes c ++ ":" ++ hostBits c ++ ":" ++ hostVerdict c))
 
 def showRes : Res Hello → String
   | .incomplete => "incomplete"
@@ -44,6 +78,23 @@ def step (line : String) : String :=
     match hexOr h with
     | some b => hostBits b
     | none => "bad-op"
+  | ["vhostT", h, dn, dh] =>
+    -- name, real `name.decode("idna")`, real `strip_dot(name).decode("idna")` (UTF-8 hex, or `!`)
+    match hexOr h, optHex dn, optHex dh with
+    | some nm, some an, some ah =>
+      let I : IdnaLib := ⟨fun x => if x == nm then an else if x == stripDot nm then ah else none⟩
+      if validHostT I nm then "1" else "0"
+    | _, _, _ => "bad-op"
+  | ["idnaN", h, t] =>
+    -- `raw.decode("idna")` computed by the transcription (UTF-8 hex, `!` = UnicodeError); only nameprep is supplied
+    match hexOr h, parseTable t with
+    | some raw, some tab =>
+      withTable tab (fun N => match idnaText (Idna.idnaOf N) raw with | some b => showBytes b | none => "!")
+    | _, _ => "bad-op"
+  | ["vhostN", h, t] =>
+    match hexOr h, parseTable t with
+    | some nm, some tab => withTable tab (fun N => if Idna.validHostN N nm then "1" else "0")
+    | _, _ => "bad-op"
   | ["starts", d, h] =>
     match flag? d, hexOr h with
     | some dtls, some b => (if startsLike dtls b then "1" else "0") ++ (if startsP dtls b then "1" else "0")
